@@ -192,7 +192,7 @@ theorem declared_suffices (r : Request) (m : Meth) (hn : (r.kws.map Param.kw).No
       · exact h3 rfl
 
 /-- non-vacuity: Manifold Sculpting with exactly its declared callbacks (distance, features) on 10 samples -/
-example : (frontEnd ⟨10, [⟨.method, .method .ManifoldSculpting⟩], false, true, true, false⟩).outcome = .ok := by
+example : (frontEnd ⟨10, [⟨.method, .method .ManifoldSculpting⟩], false, true, true, false, 10⟩).outcome = .ok := by
   decide +kernel
 
 /-- conversely, a missing declared callback is always answered by `unsupported_method_error` before anything is
